@@ -335,7 +335,7 @@ func suiteStrFun(o *Out, thorough bool, seed int64) {
 	// work on what the elements print as
 	{
 		rows := "A3 " + wmap("k", "Ii:65", "j", ws("x")) + " " + wmap("k", "Ii64:66") + " " + wmap("j", "N")
-		for _, ids := range []string{"A2 Ii:65 Ii:66", "Z3 Ii:1 Ii:2 Ii:3", "A2 Ii64:65 Ii32:66", "A2 G312e35 G32", "A3 Ii:65 " + ws("65") + " D+:65:0", "Z2 " + ws("a") + " " + ws("b"), "A2 T F", "A2 Iu8:65 Ii8:66", "A0"} {
+		for _, ids := range []string{"A2 Ii:65 Ii:66", "Z3 Ii:1 Ii:2 Ii:3", "A2 Ii64:65 Ii32:66", "A2 G312e35 G32", "A3 Ii:65 " + ws("65") + " D+:65:0", "Z2 " + ws("a") + " " + ws("b"), "A2 T F", "A2 Iu8:65 Ii8:66", "A2 Iup:65 Iu16:66", "A0"} {
 			data := wmap("ids", ids, "rows", rows)
 			for _, t := range []string{"join(ids, ',')", "includes(ids, '65')", "includes(ids, 'A')", "includes(ids, 65)", "join(ids, '') + '!'", "join(mapToArr(rows, 'k'), '-')", "includes(mapToArr(rows, 'k'), '66')"} {
 				emitEval(o, t, 0, "-", data, true)
